@@ -900,7 +900,10 @@ class SymEnv:
 
 
 def _short(t, n=300):
-    s = str(t).replace('\n', ' ')
+    try:
+        s = str(t).replace('\n', ' ')
+    except RecursionError:
+        return '<term too large to print>'
     s = ' '.join(s.split())
     return s if len(s) <= n else s[:n] + '...'
 
@@ -1139,6 +1142,66 @@ class ConcEnv:
     def fresh_name(self, stem):
         self._fn = getattr(self, '_fn', itertools.count())
         return f"{stem}!{next(self._fn)}"
+
+
+class ConcForkEnv(ConcEnv):
+    """Concrete values (shared with a parent ConcEnv) + exhaustive forking over choose(): used by replays of
+    distributional counterexamples, which must enumerate every random outcome of the real code with exact weights."""
+
+    def __init__(self, parent):
+        super().__init__([], model=parent.model, table=parent.table, numeric=parent.numeric)
+        self._uf_cache = parent._uf_cache
+        self.replay = []
+        self.trace = []
+
+    def start_path(self, replay):
+        self.replay = list(replay)
+        self.trace = []
+        self.weight = Fraction(1)
+        self.draw_log = []
+        self.violations = []
+
+    def choose(self, n, label=None, weights=None):
+        if n <= 0:
+            raise ValueError("empty range for choose")
+        i = len(self.trace)
+        val = self.replay[i][1] if i < len(self.replay) else 0
+        self.trace.append(('C', val, n))
+        if weights is None:
+            self.weight *= Fraction(1, n)
+        else:
+            self.weight *= Fraction(weights[val]) / sum(Fraction(w) for w in weights)
+        self.draw_log.append((label, val, n))
+        return val
+
+
+def explore_concrete(parent, fn, *args, max_paths=2000000, **kwargs):
+    """run fn(fork_env, ...) for every outcome of its choose() calls; returns [(result, weight)]"""
+    global CUR
+    env = ConcForkEnv(parent)
+    out = []
+    replay = []
+    prev = CUR
+    CUR = env
+    try:
+        n = 0
+        while replay is not None:
+            env.start_path(replay)
+            try:
+                res = fn(env, *args, **kwargs)
+                out.append((res, env.weight))
+            except EndPath:
+                out.append((None, env.weight))
+            except Abort:
+                pass
+            parent.violations.extend(env.violations)
+            replay = SymEnv.next_replay(env.trace)
+            n += 1
+            if n > max_paths:
+                raise PathLimit("too many concrete paths")
+    finally:
+        CUR = prev
+    return out
 
 
 def _to_fraction(a):
